@@ -212,7 +212,7 @@ func cmdRun(args []string) int {
 			errf, _ := os.Create(base + ".stderr")
 			cmd.Stderr = errf
 			cmd.Stdout = errf
-			cmd.Env = append(os.Environ(), "GORACE=halt_on_error=0 log_path="+base+".race", "GOTRACEBACK=all")
+			cmd.Env = append(os.Environ(), "GORACE=halt_on_error=0 exitcode=0 log_path="+base+".race", "GOTRACEBACK=all")
 			if err := cmd.Start(); err != nil {
 				cres[s].err = err
 				return
